@@ -248,13 +248,31 @@ func init() {
 					Required: []string{"tx.at_share_price_not_1", "tx.checked.delegate", "tx.checked.undelegate", "tx.checked.redelegate", "tx.checked.claim"},
 				}
 			}
+			// an asset that is still warming up: it is staked, slashed and moved like any other (share price != 1 after a slash)
+			wcfg := world.DefaultConfig()
+			wcfg.Assets = append(wcfg.Assets, world.AssetCfg{Denom: "ccc", Weight: "1", Min: "0", Max: "5", TakeRate: "0", StartOffset: 1000 * U})
+			wcfg.DelFunds["ccc"] = "1000000000000"
+			walpha := al
+			walpha.Denoms = []string{"ccc"}
+			walpha.Claim = false
+			warm := func(budgets []int, depth int) *engine.Scenario {
+				sc := mk("c04-warmup-asset", walpha, [][]world.Op{
+					{opDel(0, 0, "ccc", "10"), opDel(1, 0, "ccc", "7"), opDel(1, 1, "ccc", "3"), opSlash(0, "0.333333333333333333")},
+					{opDel(0, 0, "ccc", "10000000"), opDel(1, 1, "ccc", "3000000"), opSlash(1, "0.5")},
+				}, budgets, depth)
+				sc.Cfg = wcfg
+				sc.Required = []string{"tx.at_share_price_not_1", "tx.checked.delegate", "tx.checked.undelegate", "tx.checked.redelegate"}
+				return sc
+			}
 			if tier == "thorough" {
 				return []*engine.Scenario{
 					mk("c04-small", alAll, [][]world.Op{s1, s2, s3, nil, s6}, []int{5, 1, 0, 1, 0}, 6),
 					mk("c04-magnitude", mag, [][]world.Op{s4, s5}, []int{5, 0, 0, 0, 0}, 5),
+					warm([]int{4, 1, 0, 1, 0}, 5),
 				}
 			}
 			return []*engine.Scenario{
+				warm([]int{2, 1, 0, 0, 0}, 3),
 				mk("c04-small", alAll, [][]world.Op{s1, s2, s3, nil, s6}, []int{3, 1, 0, 1, 0}, 3),
 				mk("c04-magnitude", mag, [][]world.Op{s4, s5}, []int{4, 0, 0, 0, 0}, 4),
 			}
